@@ -42,6 +42,16 @@ fn locate(text: &str) -> (Option<String>, Option<usize>, Vec<usize>) {
 }
 
 pub fn run(_args: &[String]) -> i32 {
+    let (evaluated, bad) = sweep(false);
+    for (s, why) in bad.iter().take(10) {
+        println!("{}", serde_json::json!({"input": s, "contradiction": why}));
+    }
+    println!("{}", serde_json::json!({"family": "c14", "evaluated": evaluated, "contradictions": bad.len()}));
+    if bad.is_empty() { 0 } else { 1 }
+}
+
+/// with `panic_only` only a panic while building / rendering the diagnostic counts (used by the C06 family)
+pub fn sweep(panic_only: bool) -> (u64, Vec<(String, String)>) {
     let mut bad: Vec<(String, String)> = Vec::new();
     let mut evaluated = 0u64;
     let valid = "2024/01/05 ok\n    Assets:Bank    100 JPY\n    Equity\n\n";
@@ -116,7 +126,7 @@ pub fn run(_args: &[String]) -> i32 {
                                 }
                             }
                         };
-                        if let Some(p) = outcome {
+                        if let Some(p) = outcome.filter(|p| !panic_only || p.contains("panicked")) {
                             if bad.len() < 10 { bad.push((desc, p)); }
                         }
                     }
@@ -124,9 +134,5 @@ pub fn run(_args: &[String]) -> i32 {
             }
         }
     }
-    for (s, why) in bad.iter().take(10) {
-        println!("{}", serde_json::json!({"input": s, "contradiction": why}));
-    }
-    println!("{}", serde_json::json!({"family": "c14", "evaluated": evaluated, "contradictions": bad.len()}));
-    if bad.is_empty() { 0 } else { 1 }
+    (evaluated, bad)
 }
